@@ -265,7 +265,8 @@ func ShimBody(shimPath string) (func(resp *http.Response) error, error) {
 			// We have nothing to do on an empty response
 			return nil
 		}
-		contentType := strings.ToLower(resp.Header.Get(contentTypeHeader))
+		// Only the media type counts, not what its parameters (e.g. `profile="text/html"`) say.
+		contentType := strings.ToLower(strings.SplitN(resp.Header.Get(contentTypeHeader), ";", 2)[0])
 		if !strings.Contains(contentType, "html") {
 			// We only want to modify HTML responses
 			return nil
